@@ -862,6 +862,8 @@ def install(B, LenV):
 
     @method
     def ext_call(self, I, f, args, kw):
+        if "__call__" in f.methods:
+            return f.methods["__call__"](I, f, *args, **kw)
         self.w.events.append(("extcall", f.name, list(args), dict(kw)))
         f.log.append(("call", f.name, list(args), dict(kw)))
         if f.name.endswith("Error") or f.name.endswith("Exception"):
@@ -1028,6 +1030,133 @@ def _suppress(B, I, *excs):
     return cm
 
 
+def _contextmanager(B, I, f):
+    """contextlib.contextmanager on a generator function with one yield, either at the top level of the body or at the top level
+    of a try statement's body: code before the yield runs at __enter__, code after it (handlers / finally for an exception thrown
+    in at the yield) at __exit__."""
+    import ast as _ast
+    from .ae import Frame, _Return
+    if not isinstance(f, Func) or not f.is_gen:
+        raise Unknown("contextmanager on something that is not a generator function")
+    body = f.node.body
+
+    def is_yield_stmt(st):
+        v = st.value if isinstance(st, (_ast.Expr, _ast.Assign)) else None
+        return isinstance(v, _ast.Yield)
+
+    def has_yield(st):
+        return any(isinstance(n, (_ast.Yield, _ast.YieldFrom)) for n in _ast.walk(st))
+
+    idx = [i for i, st in enumerate(body) if has_yield(st)]
+    if len(idx) != 1:
+        raise Unknown("contextmanager: generator shape not modelled (several yielding statements)")
+    i = idx[0]
+    st = body[i]
+    if is_yield_stmt(st):
+        shape, j = "plain", None
+    elif isinstance(st, _ast.Try) and sum(1 for x in st.body if has_yield(x)) == 1 and any(is_yield_stmt(x) for x in st.body) \
+            and not any(has_yield(x) for h_ in st.handlers for x in h_.body) and not any(has_yield(x) for x in st.orelse + st.finalbody):
+        shape, j = "try", next(k for k, x in enumerate(st.body) if is_yield_stmt(x))
+    else:
+        raise Unknown("contextmanager: generator shape not modelled")
+
+    def make(I_, *args, **kw):
+        loc = I_.bind_args(f, list(args), kw)
+        fr = Frame(f.module, loc, cls=f.cls, self_obj=(args[0] if args else None), func=f, env=f.env)
+        fr.yields = []
+        cm = ExtV("contextlib.contextmanager(" + f.name + ")")
+        cm.methods["__strict__"] = True
+
+        def enter(I2, s_):
+            try:
+                I2.exec_block(body[:i], fr)
+                ys = st if shape == "plain" else st.body[j]
+                if shape == "try":
+                    I2.exec_block(st.body[:j], fr)
+            except _Return:
+                raise Raised(B.mkexc("RuntimeError", "generator didn't yield"))
+            val = I2.ev(ys.value.value, fr) if ys.value.value is not None else None
+            if isinstance(ys, _ast.Assign):
+                for tg in ys.targets:
+                    I2.assign(tg, None, fr)
+            return val
+
+        def exit_(I2, s_, t, e, tb):
+            try:
+                if shape == "plain":
+                    if e is not None:
+                        return False
+                    I2.exec_block(body[i + 1:], fr)
+                    return False
+                if e is not None:
+                    fr.locals["__verif_cm_exc"] = e
+                    inner = [_ast.Raise(exc=_ast.Name(id="__verif_cm_exc", ctx=_ast.Load()), cause=None)]
+                    orelse = []
+                else:
+                    inner, orelse = list(st.body[j + 1:]) or [_ast.Pass()], list(st.orelse)
+                new = _ast.Try(body=inner, handlers=list(st.handlers), orelse=orelse, finalbody=list(st.finalbody))
+                _ast.copy_location(new, st)
+                _ast.fix_missing_locations(new)
+                try:
+                    I2.exec_block([new] + list(body[i + 1:]), fr)
+                except Raised as r:
+                    if e is not None and r.exc is e:
+                        return False
+                    raise
+                return e is not None
+            except _Return:
+                return e is not None and shape == "try"
+
+        cm.methods["__enter__"] = enter
+        cm.methods["__exit__"] = exit_
+        return cm
+    return Builtin("contextmanager(" + f.name + ")", make, cls=B.OBJECT)     # binds like a function when it is a class attribute
+
+
+def _singledispatch(B, I, func):
+    """functools.singledispatch: the implementation registered for the nearest class along the MRO of type(args[0])."""
+    reg = []
+    d = ExtV("functools.singledispatch(" + getattr(func, "name", "?") + ")")
+    d.methods["__strict__"] = True
+
+    def call(I_, s_, *a, **k):
+        if not a:
+            raise Raised(B.mkexc("TypeError", "singledispatch function requires at least 1 positional argument"))
+        for c in B.typeof(a[0]).mro:
+            for k_, impl in reg:
+                if k_ is c:
+                    return I_.call(impl, list(a), k)
+        return I_.call(func, list(a), k)
+
+    def register(I_, s_, cls, impl=None):
+        if not isinstance(cls, ClassV):
+            raise Unknown("singledispatch.register with an annotated function")
+        if impl is None:
+            return Builtin("singledispatch.register(" + cls.name + ")", lambda I2, f2: (reg.append((cls, f2)), f2)[1])
+        reg.append((cls, impl))
+        return impl
+
+    def dispatch(I_, s_, cls):
+        for c in cls.mro:
+            for k_, impl in reg:
+                if k_ is c:
+                    return impl
+        return func
+    d.methods["__call__"] = call
+    d.methods["register"] = register
+    d.methods["dispatch"] = dispatch
+    return d
+
+
+def _weak_dict(B, I, *a, **k):
+    """weakref.WeakKeyDictionary / WeakValueDictionary: a dictionary (entries of dead objects vanish; the harness objects stay alive)."""
+    return B.b_dict(I, *a, **k)
+
+
+def _weak_set(B, I, *a):
+    return B.b_set(I, *a)
+
+
 def _lru_cache(B, I, *a, **k):
     """functools.cache / lru_cache: real memoisation on the abstract arguments (so stale answers are visible to the checks)."""
     def wrap(f):
@@ -1037,7 +1166,7 @@ def _lru_cache(B, I, *a, **k):
             key = Seq(list(args) + [Seq([kk, vv], "tuple") for kk, vv in sorted(kw.items())], "tuple")
             B.check_hashable(key)
             for kk, vv in memo:
-                if I_.eq(kk, key):
+                if I_.heq(kk, key):
                     return vv
             v = I_.call(f, list(args), kw)
             memo.append((key, v))
@@ -1084,6 +1213,11 @@ _EXT_FUNCS = {
     "re.compile": _re_compile,
     "collections.defaultdict": _defaultdict,
     "contextlib.suppress": _suppress,
+    "contextlib.contextmanager": _contextmanager,
+    "functools.singledispatch": _singledispatch,
+    "weakref.WeakKeyDictionary": _weak_dict,
+    "weakref.WeakValueDictionary": _weak_dict,
+    "weakref.WeakSet": _weak_set,
     "functools.lru_cache": _lru_cache,
     "functools.cache": _lru_cache,
     "functools.partial": _partial,
